@@ -178,8 +178,16 @@ pub fn gen_program(start: &Pos, policy: Policy, t: &mut Tape, max_ops: usize, af
             Op::Move(gen::choose(policy, t, &g.pos, &legal, &counts))
         } else if roll < 68 {
             // illegal move attempts
-            match t.below(4) {
+            match t.below(6) {
                 0 if !prev_legal.is_empty() => Op::Move(prev_legal[t.below(prev_legal.len())]),
+                4 | 5 if !legal.is_empty() => {
+                    // a legal move with its promotion field altered (dropped, added, or an
+                    // impossible promotion piece such as a king or a pawn)
+                    let promos: Vec<Mv> = legal.iter().copied().filter(|m| m.promo.is_some()).collect();
+                    let m = if !promos.is_empty() && t.chance(3, 4) { promos[t.below(promos.len())] } else { legal[t.below(legal.len())] };
+                    let alt = [None, Some(Kind::K), Some(Kind::P), Some(Kind::Q), Some(Kind::N), Some(Kind::R), Some(Kind::B)][t.below(7)];
+                    Op::Move(Mv::new(m.from, m.to, alt))
+                }
                 1 => {
                     let mut f = g.pos.clone();
                     f.stm = f.stm.other();
